@@ -105,6 +105,12 @@ func checkC10(c c10Case) obs.Result {
 		return steps[:len(steps)-1], steps[len(steps)-1], nil
 	}
 	classes := []string{"format=" + c.Shape.Format, fmt.Sprintf("xform=%d", c.Shape.Xform)}
+	for _, r := range c.Recs {
+		if r.BlankA && c.Shape.FLSpaceMark {
+			classes = append(classes, "first-row-all-blank")
+			break
+		}
+	}
 	whole, term, err := out(c.Recs)
 	if err != nil {
 		return obs.Result{Excluded: "no terminal result (C03's business)"}
